@@ -213,7 +213,7 @@ def replay(rec, ctx):
             rate = call(adas, c)
         except Exception as ex:                  # noqa: BLE001
             name = type(ex).__name__
-            if exp[0] == "raise" and exp[1] == name and name == "RuntimeError":
+            if exp[0] == "raise" and exp[1] == "RuntimeError" and isinstance(ex, RuntimeError):
                 return []
             if exp[0] == "unspecified":
                 return [{"observation": f"{tag}:wavelength-missing-with-null-rates:{name}"}]
@@ -239,6 +239,10 @@ def replay(rec, ctx):
                     err = None
                 except Exception as ex:          # noqa: BLE001
                     got, err = None, type(ex).__name__
+                    if exp[0] == "raise" and exp[1] == "ValueError":
+                        # the statement says the rate "raises" outside the range without naming the class: today it is a
+                        # ValueError; any exception counts
+                        err = "ValueError"
                 k = exp[0]
                 where = c["arg"][0] + ("." + c["arg"][1] if len(c["arg"]) > 1 else "")
                 if k == "null_zero":
